@@ -876,6 +876,39 @@ fn main() {
                 })),
             ],
         );
+        // fifth bug hunt: exactly singular INTEGER systems whose zero pivot is missed by one rounding (the pivot is formed through the
+        // rounded quotient sup / beta): no refusal, a "solution" of size 1e14. Genuine and listed: a relative pivot test needs a
+        // notion of rounding level that the generic element type does not offer
+        ctx.known_cases(
+            "listed inputs: exactly singular integer systems whose zero pivot is missed by one rounding",
+            vec![
+                ("singular-integer tridiagonal [[11,15],[11,15]] x = (1,2)".to_string(), Box::new(|| {
+                    let t = Tridiagonal::<f64>::with_vecs(vec![11.0], vec![11.0, 15.0], vec![15.0]);
+                    match catch(|| t.solve(&Vector::create(vec![1.0, 2.0]))) {
+                        Err(p) if p.contains("zero pivot") => Ok(()),
+                        Err(p) => Err(format!("panicked with {:?} instead of a zero-pivot message", p)),
+                        Ok(x) => Err(format!("a singular system (det() = {}) was not refused: x = {:?}", t.det(), x.vec)),
+                    }
+                })),
+                ("singular-integer tridiagonal [[3,7],[27,63]] x = (1,2)".to_string(), Box::new(|| {
+                    let t = Tridiagonal::<f64>::with_vecs(vec![27.0], vec![3.0, 63.0], vec![7.0]);
+                    match catch(|| t.solve(&Vector::create(vec![1.0, 2.0]))) {
+                        Err(p) if p.contains("zero pivot") => Ok(()),
+                        Err(p) => Err(format!("panicked with {:?} instead of a zero-pivot message", p)),
+                        Ok(x) => Err(format!("a singular system was not refused: x = {:?}", x.vec)),
+                    }
+                })),
+                ("singular-integer tridiagonal complex [[1+3i,1],[1+3i,1]] x = (1,2)".to_string(), Box::new(|| {
+                    let (z, one) = (Cmplx::new(1.0, 3.0), Cmplx::new(1.0, 0.0));
+                    let t = Tridiagonal::<Cmplx>::with_vecs(vec![z], vec![z, one], vec![one]);
+                    match catch(|| t.solve(&Vector::create(vec![one, Cmplx::new(2.0, 0.0)]))) {
+                        Err(p) if p.contains("zero pivot") => Ok(()),
+                        Err(p) => Err(format!("panicked with {:?} instead of a zero-pivot message", p)),
+                        Ok(x) => Err(format!("a singular system was not refused: x = {:?}", x.vec)),
+                    }
+                })),
+            ],
+        );
         ctx.known_cases(
             "listed inputs: Tridiagonal<f64> with entries of extreme magnitude",
             vec![
